@@ -428,19 +428,19 @@ fn run_ops(cs: u64, specs: &[WSpec], ops: &[Op], policy: Policy) -> (Option<Outc
     (res, stats)
 }
 
-fn sigs_of(res: &Option<Outcome>, stats: &RunStats) -> Vec<(String, String)> {
-    let mut v: Vec<(String, String)> = Vec::new();
+fn sigs_of(res: &Option<Outcome>, stats: &RunStats) -> Vec<(String, String, usize)> {
+    let mut v: Vec<(String, String, usize)> = Vec::new();
     let panics = dds_panics(stats);
     let op = res.as_ref().and_then(|o| o.panic_op.clone()).unwrap_or_else(|| "idle".into());
     for p in &panics {
-        v.push((panic_sig(p, &op), format!("DDS {:?} task panicked at {} during {}: {}", p.task, p.location, op, p.msg)));
+        v.push((panic_sig(p, &op), format!("DDS {:?} task panicked at {} during {}: {}", p.task, p.location, op, p.msg), res.as_ref().and_then(|o| o.aborted_at).unwrap_or(usize::MAX)));
     }
     if let Some(o) = res {
         for f in &o.findings {
             if f.sig.starts_with("hang|") && !panics.is_empty() {
                 continue;
             }
-            v.push((f.sig.clone(), f.what.clone()));
+            v.push((f.sig.clone(), f.what.clone(), f.step));
         }
     }
     v
@@ -487,7 +487,7 @@ pub fn run(shard: &Shard) -> Report {
             }
         }
         let mut done: Vec<String> = Vec::new();
-        for (sig, what) in &found {
+        for (sig, what, at_step) in &found {
             if done.contains(sig) {
                 continue;
             }
@@ -497,16 +497,17 @@ pub fn run(shard: &Shard) -> Report {
             let mut what = what.clone();
             if seen < 1 || shard.replay.is_some() {
                 let mut budget = 200usize;
+                let cut = (*at_step).min(ops.len() - 1);
                 let min = ddmin(
-                    ops.clone(),
+                    ops[..=cut].to_vec(),
                     |cand: &[Op]| {
                         let (r, s) = run_ops(cs, &specs, cand, policy);
-                        sigs_of(&r, &s).iter().any(|(x, _)| x == sig)
+                        sigs_of(&r, &s).iter().any(|(x, _, _)| x == sig)
                     },
                     &mut budget,
                 );
                 let (r2, s2) = run_ops(cs, &specs, &min, policy);
-                if let Some((_, w2)) = sigs_of(&r2, &s2).into_iter().find(|(x, _)| x == sig) {
+                if let Some((_, w2, _)) = sigs_of(&r2, &s2).into_iter().find(|(x, _, _)| x == sig) {
                     what = w2;
                 }
                 what = format!("{what}; writers {}; minimal history: {}", specs_json(&specs).to_string(), history_json(&min).to_string());
